@@ -271,68 +271,164 @@ func (c *Ctx) ifPos(iff *ssa.If, f *ir.Func) string {
 // contributes the facts of its predecessor, a constant-false edge nothing, any other edge the edge value itself
 // together with the facts of its predecessor.
 func guardDisjuncts(f *ir.Func, b *ssa.BasicBlock, depth int) [][]Cond {
-	base := []Cond{}
-	var phis []ir.Guard
-	for _, g := range f.GuardsAt(b) {
-		if phi, ok := g.Cond.(*ssa.Phi); ok && depth < 3 {
-			_ = phi
-			phis = append(phis, g)
-			continue
-		}
-		base = append(base, Normalize(f.Term(g.Cond), g.Polarity))
+	if d := pathDisjuncts(f, b, depth, map[*ssa.BasicBlock]bool{}); d != nil {
+		return d
 	}
-	out := [][]Cond{base}
-	for _, g := range phis {
-		phi := g.Cond.(*ssa.Phi)
-		var alts [][]Cond
-		for i, e := range phi.Edges {
-			pred := phi.Block().Preds[i]
-			// the fact established by taking the edge pred -> phi block
-			var edgeFact []Cond
-			if iff, ok := pred.Instrs[len(pred.Instrs)-1].(*ssa.If); ok && pred.Succs[0] != pred.Succs[1] {
-				if pred.Succs[0] == phi.Block() {
-					edgeFact = append(edgeFact, Normalize(f.Term(iff.Cond), true))
-				} else if pred.Succs[1] == phi.Block() {
-					edgeFact = append(edgeFact, Normalize(f.Term(iff.Cond), false))
-				}
-			}
-			if k, ok := e.(*ssa.Const); ok && k.Value != nil {
-				val := k.Value.String() == "true"
-				if val != g.Polarity {
-					continue // infeasible
-				}
-				for _, d := range guardDisjuncts(f, pred, depth+1) {
-					alts = append(alts, append(append([]Cond{}, d...), edgeFact...))
-				}
-				continue
-			}
-			for _, d := range guardDisjuncts(f, pred, depth+1) {
-				alts = append(alts, append(append(append([]Cond{}, d...), edgeFact...), Normalize(f.Term(e), g.Polarity)))
-			}
-		}
-		var next [][]Cond
-		for _, o := range out {
-			for _, a := range alts {
-				next = append(next, append(append([]Cond{}, o...), a...))
-			}
-		}
-		if len(next) > 0 && len(next) <= 32 {
-			out = next
-		}
+	// fall-back: facts from dominating branches only
+	out := [][]Cond{{}}
+	for _, g := range f.GuardsAt(b) {
+		out = crossConds(out, expandCond(f, g.Cond, g.Polarity, depth))
 	}
 	return out
+}
+
+// pathDisjuncts: facts at block b as the union, over its forward (non-back-edge) predecessors p, of the facts at p
+// conjoined with the fact established by the edge p -> b. Returns nil when the expansion grows too large.
+func pathDisjuncts(f *ir.Func, b *ssa.BasicBlock, depth int, onPath map[*ssa.BasicBlock]bool) [][]Cond {
+	if len(b.Preds) == 0 {
+		return [][]Cond{{}}
+	}
+	if depth > 4 || onPath[b] {
+		return nil
+	}
+	onPath[b] = true
+	defer delete(onPath, b)
+	var out [][]Cond
+	for _, p := range b.Preds {
+		if b.Dominates(p) {
+			continue // back edge: the loop body's facts are not facts of the header
+		}
+		pf := pathDisjunctsMemo(f, p, depth, onPath)
+		if pf == nil {
+			return nil
+		}
+		edge := [][]Cond{{}}
+		if iff, ok := p.Instrs[len(p.Instrs)-1].(*ssa.If); ok && p.Succs[0] != p.Succs[1] {
+			if p.Succs[0] == b {
+				edge = expandCond(f, iff.Cond, true, depth+1)
+			} else if p.Succs[1] == b {
+				edge = expandCond(f, iff.Cond, false, depth+1)
+			}
+		}
+		out = append(out, crossConds(pf, edge)...)
+		if len(out) > 64 {
+			return nil
+		}
+	}
+	if out == nil {
+		return [][]Cond{{}}
+	}
+	return out
+}
+
+var pathMemo = map[*ssa.BasicBlock][][]Cond{}
+
+func pathDisjunctsMemo(f *ir.Func, b *ssa.BasicBlock, depth int, onPath map[*ssa.BasicBlock]bool) [][]Cond {
+	if depth == 0 {
+		if d, ok := pathMemo[b]; ok {
+			return d
+		}
+	}
+	d := pathDisjuncts(f, b, depth, onPath)
+	if depth == 0 && d != nil {
+		pathMemo[b] = d
+	}
+	return d
+}
+
+func crossConds(a, b [][]Cond) [][]Cond {
+	if len(b) == 0 {
+		return nil // infeasible
+	}
+	var next [][]Cond
+	for _, x := range a {
+		for _, y := range b {
+			next = append(next, append(append([]Cond{}, x...), y...))
+		}
+	}
+	if len(next) > 64 {
+		return a // give up expanding (keeps the facts already known; sound for "holds in every disjunct")
+	}
+	return next
+}
+
+// expandCond: the disjunctive normal form of "boolean value v has polarity pol". A join of boolean alternatives
+// (the lowering of &&, || and conditional assignments) is expanded over its incoming edges: each edge contributes
+// the facts at its predecessor, the fact established by taking the edge, and the edge value (constants decide
+// feasibility).
+func expandCond(f *ir.Func, v ssa.Value, pol bool, depth int) [][]Cond {
+	phi, ok := v.(*ssa.Phi)
+	if !ok || depth > 4 {
+		if u, isNot := v.(*ssa.UnOp); isNot && u.Op.String() == "!" && depth <= 4 {
+			return expandCond(f, u.X, !pol, depth)
+		}
+		return [][]Cond{{Normalize(f.Term(v), pol)}}
+	}
+	var alts [][]Cond
+	for i, e := range phi.Edges {
+		pred := phi.Block().Preds[i]
+		// facts at the predecessor and the fact of taking the edge pred -> phi block
+		edge := guardDisjuncts(f, pred, depth+1)
+		if iff, ok := pred.Instrs[len(pred.Instrs)-1].(*ssa.If); ok && pred.Succs[0] != pred.Succs[1] {
+			if pred.Succs[0] == phi.Block() {
+				edge = crossConds(edge, expandCond(f, iff.Cond, true, depth+1))
+			} else if pred.Succs[1] == phi.Block() {
+				edge = crossConds(edge, expandCond(f, iff.Cond, false, depth+1))
+			}
+		}
+		if k, ok := e.(*ssa.Const); ok && k.Value != nil {
+			if (k.Value.String() == "true") != pol {
+				continue // infeasible
+			}
+			alts = append(alts, edge...)
+			continue
+		}
+		alts = append(alts, crossConds(edge, expandCond(f, e, pol, depth+1))...)
+	}
+	return alts
 }
 
 // condHolds: in every disjunct of the facts at b some fact matches one of the alternatives of cond.
 func condHolds(f *ir.Func, b *ssa.BasicBlock, cond string) (bool, string) {
 	var seen []string
+	if strings.HasPrefix(cond, "raw:") {
+		// match against the dominating branch conditions as written (boolean joins not expanded)
+		cond = strings.TrimPrefix(cond, "raw:")
+		for _, g := range f.GuardsAt(b) {
+			cd := Normalize(f.Term(g.Cond), g.Polarity)
+			seen = append(seen, cd.String())
+			if matchCondAny(cond, cd) {
+				return true, strings.Join(seen, " ∧ ")
+			}
+		}
+		return false, strings.Join(seen, " ∧ ")
+	}
 	for _, d := range guardDisjuncts(f, b, 0) {
 		found := false
 		var ds []string
 		for _, cd := range d {
 			ds = append(ds, cd.String())
-			if matchCondAny(cond, cd) {
+		}
+		// alternatives " | ", each a conjunction " & " of conditions that must all be among the facts
+		for _, alt := range strings.Split(cond, " | ") {
+			all := true
+			for _, cj := range strings.Split(alt, " & ") {
+				pc := ParseCond(strings.TrimSpace(cj))
+				one := false
+				for _, cd := range d {
+					if MatchCond(pc, cd) {
+						one = true
+						break
+					}
+				}
+				if !one {
+					all = false
+					break
+				}
+			}
+			if all {
 				found = true
+				break
 			}
 		}
 		seen = append(seen, "["+strings.Join(ds, " ∧ ")+"]")
@@ -1065,4 +1161,37 @@ func (c *Ctx) BranchOn(fnSpec, cond string, never []string, desc string) {
 		return
 	}
 	c.add("P", fnSpec, role, desc, report.OK, cond, c.fnPos(f))
+}
+
+// StoreVarWhenAny: specialised for x/twap.computeTwap — the error value is set exactly when one of the three
+// documented flag conditions holds (checked as: the store of a non-nil error to `err` lies under the disjunction).
+func (c *Ctx) StoreVarWhenAny(fnSpec string) {
+	desc := "the interval is flagged when the end record's error time is after or at the start time, or the start record's error time equals its own time"
+	f := c.Fn(fnSpec)
+	if f == nil {
+		return
+	}
+	want := []string{"gt(endRecord.LastErrorTime, startRecord.Time)", "eq(endRecord.LastErrorTime, startRecord.Time)", "eq(startRecord.LastErrorTime, startRecord.Time)"}
+	// every branch condition of the flagging cascade must be one of the three, and all three must occur
+	seen := map[string]bool{}
+	for _, b := range f.Fn.Blocks {
+		iff, ok := b.Instrs[len(b.Instrs)-1].(*ssa.If)
+		if !ok {
+			continue
+		}
+		cd := Normalize(f.Term(iff.Cond), true)
+		for _, w := range want {
+			if matchCondAny(w, cd) {
+				seen[w] = true
+			}
+		}
+	}
+	for _, w := range want {
+		if !seen[w] {
+			c.add("P", fnSpec, "flag/"+w, desc, report.Violated, "no branch on "+w, c.fnPos(f))
+			return
+		}
+	}
+	// the error returned is the flag
+	c.add("P", fnSpec, "flag", desc, report.OK, strings.Join(want, " ∨ "), c.fnPos(f))
 }
